@@ -109,7 +109,7 @@ class BodyLocks:
         return self.before_term.get(bb, set())
 
     def classes_at_term(self, bb):
-        return {guard_class(self.body.locals[l]) for l in self.held_at_term(bb)}
+        return {guard_class(self.body.locals[l]) for l in self.held_at_term(bb)} | getattr(self, "inherited_classes", set())
 
 
 class LockEngine:
@@ -143,6 +143,49 @@ class LockEngine:
                 if names & CONDVAR_NOTIFY:
                     self.notify_sites.append((b.id, bb))
         self._may_acquire = None
+        self._inherit()
+
+    _SYNC_ADAPTORS = ("std::iter::", "core::iter::", "::Iterator>::", "std::option::Option", "std::result::Result", "std::iter::Iterator::")
+
+    def _inherit(self):
+        """a closure handed to an iterator / Option / Result adaptor runs inside its parent's frame: it holds whatever lock
+        classes the parent holds at the adaptor call (closures handed to anything else — spawn, callbacks — inherit nothing)"""
+        done = set()
+
+        def classes_for(cid, depth=0):
+            if cid in done or depth > 4:
+                return self.locks(cid).__dict__.get("inherited_classes", set())
+            done.add(cid)
+            c = self.prog.bodies[cid]
+            bl = self.locks(cid)
+            bl.inherited_classes = set()
+            if c.kind != "closure" or not c.parent or c.parent not in self.prog.bodies:
+                return bl.inherited_classes
+            par = self.prog.bodies[c.parent]
+            pbl = self.locks(par.id)
+            classes_for(par.id, depth + 1)
+            # the local(s) holding the closure value
+            holders = set()
+            for blk in par.blocks:
+                for st in blk["s"]:
+                    if st.get("k") == "assign" and st["rv"].get("k") == "agg" and st["rv"].get("def") == cid and len(st["d"]) == 1:
+                        holders.add(st["d"][0])
+            got = None
+            for bb, t in par.calls():
+                for a in t.get("args", []):
+                    l = _bare(a)
+                    if l in holders:
+                        tg = (t.get("rcallee") or t.get("callee") or "")
+                        if any(x in tg for x in self._SYNC_ADAPTORS):
+                            cl = pbl.classes_at_term(bb)
+                            got = cl if got is None else (got & cl)
+                        else:
+                            got = set()
+            bl.inherited_classes = set(got or ())
+            return bl.inherited_classes
+        for cid, c in self.prog.bodies.items():
+            if c.kind == "closure":
+                classes_for(cid)
 
     def locks(self, bid):
         if bid not in self._bl:
